@@ -432,7 +432,7 @@ func resolveAllChanges(newEnv, oldEnv *Environment) ([]DefinitionChange, map[str
 				// These are semantically equivalent "base" TypeDefinitions
 				oldDef, err := resolveTo(oldTd, oldName)
 				if err != nil {
-					log.Panic().Err(err)
+					log.Panic().Err(err).Msg("unable to resolve base type definition")
 				}
 				newResolved := resolveGenericDefinition(newTd, oldDef)
 
@@ -473,7 +473,7 @@ func resolveAllChanges(newEnv, oldEnv *Environment) ([]DefinitionChange, map[str
 						// This enables declaring "old" generic TypeDefinitions later in codegen
 						oldDef, err := resolveTo(oldParent, oldName)
 						if err != nil {
-							log.Panic().Err(err)
+							log.Panic().Err(err).Msg("unable to resolve parent type definition")
 						}
 						newResolved := resolveGenericDefinition(newTd, oldDef)
 
